@@ -180,6 +180,19 @@ def infeasible_items(tier):
         for gap in ("0min", "100d", "3w", "1y"):
             add(f"gap {gap} alap={alap}", {"alap": alap, "resources": R, "tasks": [T("a"), T("b", deps=[{"ref": "a", "gap": gap}])]})
         add(f"onstart-cycle alap={alap}", {"alap": alap, "resources": R, "tasks": [T("a", deps=[{"ref": "b", "onstart": True}]), T("b", deps=[{"ref": "a", "onstart": True}])]})
+    for lv in (("2024-12-09", "2024-12-11"), ("2024-12-30", "2025-01-08"), ("2025-03-01", "2025-03-05"), ("2025-01-20", "2025-03-01"), ("2020-01-01", "2030-01-01")):
+        for kind in ("leaves", "vacation", "booking", "pvac", "gleave"):
+            for alap in (False, True):
+                spec = {"alap": alap, "resources": [{"id": "r1"}], "tasks": [T("a"), T("b", deps=["a"])]}
+                if kind in ("leaves", "vacation"):
+                    spec["resources"][0]["leaves"] = [{"k": kind, "type": "annual", "a": lv[0], "b": lv[1]}]
+                elif kind == "booking":
+                    spec["resources"][0]["leaves"] = [{"k": "booking", "a": lv[0] + "-09:00", "b": "+6h"}]
+                elif kind == "pvac":
+                    spec["vacations"] = [lv]
+                else:
+                    spec["gleaves"] = [("holiday", lv[0], lv[1])]
+                add(f"leave {kind} {lv} alap={alap}", spec)
     for dur in ("1d", "0d", "2y", "1m"):
         add(f"project duration {dur}", {"dur": dur, "resources": R, "tasks": [T("a"), T("b", deps=["a"])]})
     base = render.render({"resources": R, "tasks": [T("a"), T("b", deps=["a"])]})
@@ -280,6 +293,8 @@ def no_cause(spec, obs):
         if r.get("leaves") or r.get("hours") or r.get("limits") or (r.get("eff") not in (None, 1.0, 0.5, 0.7)):
             return v
     if spec.get("dur", "3w") not in ("3w", "4w", "1w") or spec.get("res_min") not in (None, 60, 30, 15, 5):
+        return v
+    if spec.get("vacations") or spec.get("gleaves") or spec.get("pwh") or spec.get("shifts"):
         return v
     for t in obs["tasks"]:
         if t["leaf"] and not t["sched"][0]:
